@@ -339,14 +339,17 @@ Definition get_codec_by_payload (e : engine) (p : N) : result (codec * kind) :=
 
 Definition is_rtx (c : codec) : bool := eq_fold (c_mime c) "video/rtx".
 
-(* primaryPayloadTypeForRTXExists: (isRTX, primaryExists) *)
+(* primaryPayloadTypeForRTXExists: (isRTX, primaryExists); an RTX entry is not
+   a primary (as repaired: "filterUnattachedRTX does not accept an RTX entry as
+   the primary of another") *)
+Definition primary_pt (p : N) (c : codec) : bool := pt_is p c && negb (is_rtx c).
 Definition rtx_primary (needle : codec) (hay : list codec) : bool * bool :=
   if negb (is_rtx needle) then (false, false)
   else match fmtp_parameter (codec_fmtp needle) "apt" with
        | None => (true, false)
        | Some a => match parse_atoi_pt a with
                    | None => (true, false)
-                   | Some p => (true, existsb (pt_is p) hay)
+                   | Some p => (true, existsb (primary_pt p) hay)
                    end
        end.
 
@@ -396,15 +399,12 @@ Definition get_codecs (engine_codecs prefs : list codec) : list codec :=
 
 (* ---------- setCodecPreferencesFromRemoteDescription ---------- *)
 
-(* remove the last element satisfying p (the inner loop runs from the end and
-   breaks at the first hit) *)
+(* remove the first element satisfying p (the inner loop breaks at the first hit) *)
 Fixpoint remove_first {A} (p : A -> bool) (l : list A) : list A :=
   match l with
   | [] => []
   | a :: t => if p a then t else a :: remove_first p t
   end.
-Definition remove_last {A} (p : A -> bool) (l : list A) : list A :=
-  rev (remove_first p (rev l)).
 
 (* payloadMapping: remote payload type -> engine payload type; kept in
    ascending key order (Go ranges over the map in unspecified order) *)
@@ -417,7 +417,10 @@ Fixpoint pm_set (k v : N) (m : list (N * N)) : list (N * N) :=
       else (k', v') :: pm_set k v t
   end.
 
-(* filterByMatchType: remote codecs visited from the last to the first; state =
+(* filterByMatchType: remote codecs visited from the last to the first; the
+   matched engine codec is removed from leftCodecs by its payload type (as
+   repaired: "setCodecPreferencesFromRemoteDescription removes the matched media
+   engine codec"); state =
    (remote codecs kept behind the cursor, leftCodecs, payloadMapping, result) *)
 Fixpoint filter_by_match (want : mt) (rev_remote kept left : list codec)
          (pm : list (N * N)) (acc : list codec)
@@ -430,7 +433,7 @@ Fixpoint filter_by_match (want : mt) (rev_remote kept left : list codec)
         let '(mc, m) := fuzzy_search rc left in
         if mt_eqb m want then
           filter_by_match want rp kept
-                          (remove_last (exact_ok mc) left)
+                          (remove_first (pt_is (c_pt mc)) left)
                           (pm_set (c_pt rc) (c_pt mc) pm)
                           (set_pt rc (c_pt mc) :: acc)
         else filter_by_match want rp (rc :: kept) left pm acc
